@@ -130,13 +130,16 @@ func collectAccess(fn *ssa.Function, roots []ssa.Value, acc *fieldAccess, seen m
 }
 
 func checkC06(c *core.Ctx, r *core.Report) {
-	r.Explanation = "C06 (pipeline commands mean the same however the stream is chunked), replay precondition only: when a two-pass command finishes its first pass every upstream processor is rewound and must start from its initial state. " +
+	r.Explanation = "[ORDER (shared with C05) — every compareValues call sits inside a whole loop over the sort elements] [ACCUM — every min/max fold into a struct field reads the field it writes (a running extreme is not recomputed from another field)] C06 (pipeline commands mean the same however the stream is chunked), replay precondition only: when a two-pass command finishes its first pass every upstream processor is rewound and must start from its initial state. " +
 		"(1) REWIND — for every type implementing the package's `processor` interface, each field of the processor (or of the options object it points to) that the Process cone both writes and reads (cross-batch state) is re-assigned in the Rewind cone, unless the type is cached-final (GetFinalResultIfExists can return true: it replays its stored result) or a two-pass accumulator (Rewind sets a flag that Process reads), or the field is a memo whose stored value does not depend on the input batch (compiled regular expressions); " +
 		"(4) the same for the DataProcessor wrapper itself (its merge counters are value fields of the wrapper: they must be reset on the wrapper's own copy); " +
 		"(5) in the head command every comparison or subtraction that involves the configured row limit also involves the count of rows already sent; " +
 		"(3) a CachedStream that is handed leftover rows back is marked not exhausted on every path (exhausted streams are skipped by the fetch loop); " +
 		"(2) flag consistency of the DataProcessor constructors: isTwoPassCmd is false or equals isBottleneckCmd; ignoresInputOrder implies !inputOrderMatters; every literal sets a processor and a processorLock."
 	r.NotCovered = "everything else in the statement: batch-size independence, several upstream streams (CachedStream exhaustion/hand-back), merge of parallel chains, the commands' semantics"
+
+	checkRunningExtremes(c, r)
+	c05AllKeys(c, r)
 
 	pkg := c.Pkg(pkgProcessor)
 	if pkg == nil {
@@ -165,7 +168,7 @@ func checkC06(c *core.Ctx, r *core.Report) {
 		}
 	}
 	sort.Slice(impls, func(i, j int) bool { return impls[i].Obj().Name() < impls[j].Obj().Name() })
-	r.Floor("REWIND", "types implementing processor", len(impls), 25)
+	r.Floor("REWIND", "types implementing processor", len(impls), 20)
 
 	exceptions := map[string]string{
 		"scrollProcessor.scrollFrom":  "the scroller is appended as the last DataProcessor of a chain and is never upstream of a rewinding two-pass command",
